@@ -1021,6 +1021,12 @@ impl Compiler {
                     self.compile_assert_type(temp_register, *type_hint, Some(arg), ctx)?;
                     self.pop_register()?; // temp_register
                 }
+                Node::PackedId(Some(id)) if is_first_arg && is_last_arg => {
+                    // e.g. (all...)
+                    // The only arg takes all of the container's items.
+                    let id_register = self.assign_local_register(*id)?;
+                    self.push_op(SliceFrom, &[id_register, container_register, 0]);
+                }
                 Node::PackedId(maybe_id) if is_first_arg => {
                     if let Some(id) = maybe_id {
                         // e.g. [first..., x, y]
